@@ -156,6 +156,7 @@ type SpecFile struct {
 	Ghosts  []GhostDecl
 	Theory  string
 	Imports map[string]string
+	Binds   [][2]string // interface type => concrete type (wiring assumption A-WIRE)
 }
 
 // ---------- lexer ----------
@@ -435,7 +436,7 @@ func parseExpr(src string) (e Expr, err error) {
 // ---------- file level ----------
 
 var itemKw = map[string]bool{"func": true, "extern": true, "spec": true, "axiom": true, "lemma": true,
-	"property": true, "opaque": true, "ghost": true, "theory": true, "import": true}
+	"property": true, "opaque": true, "ghost": true, "theory": true, "import": true, "bind": true}
 var clauseKw = map[string]bool{"requires": true, "ensures": true, "modifies": true, "loop": true, "call": true,
 	"nopanic": true, "trusted": true, "pure": true, "cut": true, "induction": true, "fresh": true, "trigger": true, "uses": true, "auto": true}
 
@@ -555,6 +556,12 @@ func parseSpecFile(path string) (*SpecFile, error) {
 				continue
 			}
 			sf.Theory = l.text
+		case "bind":
+			parts := strings.Fields(l.text)
+			if len(parts) != 3 || parts[1] != "=>" {
+				return nil, fmt.Errorf("%s: bad bind", l.where)
+			}
+			sf.Binds = append(sf.Binds, [2]string{parts[0], parts[2]})
 		case "import":
 			parts := strings.Fields(l.text)
 			if len(parts) != 2 {
